@@ -91,7 +91,7 @@ fn main() {
         }
         return;
     }
-    let maxlen = std::env::var("VX_STACK_MAXLEN").ok().and_then(|s| s.parse().ok()).unwrap_or(8);
+    let maxlen = std::env::var("VX_STACK_MAXLEN").ok().and_then(|s| s.parse().ok()).unwrap_or(9);
     match search(maxlen) {
         Some((h, step, what)) => println!("WITNESS {{\"history\":\"{}\",\"step\":{},\"what\":\"{}\"}}", show(&h), step, what.replace('"', "'")),
         None => println!("NO-WITNESS histories up to length {} over 7 operations agree with the model", maxlen),
